@@ -74,37 +74,40 @@ func useCheck(id, fam string, tier common.Tier) int {
 				run.Sample(e1.UseSpecString(spec))
 			}
 		}
+		bodyEncls := []e1.UseEncl{}
+		for encl := e1.UEPlain; encl < e1.UseEncl(len(e1.UseEnclNames)); encl++ {
+			if encl.HasBody() {
+				bodyEncls = append(bodyEncls, encl)
+			}
+		}
 		for _, pk := range pkgs {
 			for _, mix := range mixes {
+				// "rich" (package, mix) combinations get the deep exploration; the others the shallow one.
+				rich := false
+				if fam == "TONL" {
+					rich = mix.TestOnly && mix.Allow == 0
+				} else {
+					rich = (mix.Allow == 1 || mix.Allow == 5) && !mix.TestOnly && (pk.Path == e1.UPkgU.Path || pk.Path == e1.UPkgW.Path)
+				}
 				// Phase A: one declaration, statement sequences.
-				for encl := e1.UEPlain; encl < e1.UseEncl(len(e1.UseEnclNames)); encl++ {
-					if !encl.HasBody() {
-						continue
-					}
+				for _, encl := range bodyEncls {
 					for _, file := range []int{0, 2} {
 						if file == 2 && encl != e1.UEPlain {
 							continue
 						}
-						n := lenAll
-						if thorough && fam == "PKGO" {
-							// length 3 over the whole alphabet only for the plain function under two allow-lists in two using packages
-							if !(encl == e1.UEPlain && (mix.Allow == 1 || mix.Allow == 5) && !mix.TestOnly && (pk.Path == e1.UPkgU.Path || pk.Path == e1.UPkgW.Path)) {
-								n = 2
-							}
-						}
-						if thorough && fam == "TONL" && encl != e1.UEPlain && encl != e1.UETestOnlyFunc && encl != e1.UEPkgVar {
+						// sequence length over the whole alphabet
+						n := 1
+						switch {
+						case rich && encl == e1.UEPlain:
+							n = lenAll
+						case rich && thorough, thorough && encl == e1.UEPlain, fam == "TONL" && encl == e1.UETestOnlyFunc:
 							n = 2
-						}
-						if !thorough {
-							rich := fam == "TONL" || ((mix.Allow == 1 || mix.Allow == 5) && !mix.TestOnly && (pk.Path == e1.UPkgU.Path || pk.Path == e1.UPkgW.Path))
-							if !(encl == e1.UEPlain && rich) && !(encl == e1.UETestOnlyFunc && fam == "TONL") {
-								n = 1
-							}
 						}
 						seqs(all, n, func(st []int) {
 							do(&e1.UseSpec{Pkg: pk, Mix: mix, Sites: sites, Blocks: []e1.UseBlock{{Encl: encl, File: file, Stmts: st}}})
 						})
-						if encl == e1.UEPlain || encl == e1.UEPkgVar {
+						// longer sequences over the core alphabet
+						if rich && (encl == e1.UEPlain || encl == e1.UEPkgVar) && file == 0 {
 							seqs(core, lenCore, func(st []int) {
 								if len(st) <= n {
 									return // already covered
@@ -114,63 +117,67 @@ func useCheck(id, fam string, tier common.Tier) int {
 						}
 					}
 				}
+				if !rich {
+					continue
+				}
 				// Phase C: which items carry the annotation (all 32 subsets) x order of the declarations in d.
-				if (fam == "TONL" && mix.TestOnly && mix.Allow == 0) || (fam == "PKGO" && (mix.Allow == 1 || mix.Allow == 5) && !mix.TestOnly) {
-					for skip := 0; skip < 32; skip++ {
-						for order := 0; order < 4; order++ {
-							if skip == 0 && order == 0 {
-								continue
+				for skip := 0; skip < 32; skip++ {
+					for order := 0; order < 4; order++ {
+						if skip == 0 && order == 0 {
+							continue
+						}
+						m := mix
+						m.Skip, m.DeclOrder = skip, order
+						do(&e1.UseSpec{Pkg: pk, Mix: m, Sites: sites, Blocks: []e1.UseBlock{{Encl: e1.UEPlain, Stmts: all}, {Encl: e1.UEStructField, File: 1}, {Encl: e1.UEPkgVar, File: 1, Stmts: core}}})
+						if thorough || order == 0 || skip == 3 || skip == 28 {
+							for _, st := range all {
+								do(&e1.UseSpec{Pkg: pk, Mix: m, Sites: sites, Blocks: []e1.UseBlock{{Encl: e1.UEPlain, Stmts: []int{st}}}})
 							}
-							m := mix
-							m.Skip, m.DeclOrder = skip, order
-							do(&e1.UseSpec{Pkg: pk, Mix: m, Sites: sites, Blocks: []e1.UseBlock{{Encl: e1.UEPlain, Stmts: all}, {Encl: e1.UEStructField, File: 1}, {Encl: e1.UEPkgVar, File: 1, Stmts: core}}})
-							if thorough || order == 0 || skip == 3 || skip == 28 {
-								for _, st := range all {
-									do(&e1.UseSpec{Pkg: pk, Mix: m, Sites: sites, Blocks: []e1.UseBlock{{Encl: e1.UEPlain, Stmts: []int{st}}}})
+						}
+					}
+				}
+				// Phase B: histories of declarations (depth 2 over the full declaration alphabet).
+				var alpha, small []e1.UseBlock
+				for encl := e1.UEPlain; encl < e1.UseEncl(len(e1.UseEnclNames)); encl++ {
+					for file := 0; file < 3; file++ {
+						if encl.HasBody() {
+							for ci, c := range core {
+								b := e1.UseBlock{Encl: encl, File: file, Stmts: []int{c}}
+								alpha = append(alpha, b)
+								if file < 2 && ci < 4 && (encl == e1.UEPlain || encl == e1.UETestOnlyFunc || encl == e1.UEPkgVar) {
+									small = append(small, b)
+								}
+							}
+						} else {
+							b := e1.UseBlock{Encl: encl, File: file}
+							alpha = append(alpha, b)
+							if file < 2 {
+								small = append(small, b)
+							}
+						}
+					}
+				}
+				for _, a := range alpha {
+					for _, b := range alpha {
+						h := []e1.UseBlock{a, b}
+						if e1.ValidUseHistory(h) {
+							do(&e1.UseSpec{Pkg: pk, Mix: mix, Sites: sites, Blocks: h})
+						}
+					}
+				}
+				if depthB == 3 {
+					// depth 3 over the reduced declaration alphabet (regular files, three body enclosers, four core statements)
+					for _, a := range small {
+						for _, b := range small {
+							for _, c := range small {
+								h := []e1.UseBlock{a, b, c}
+								if e1.ValidUseHistory(h) {
+									do(&e1.UseSpec{Pkg: pk, Mix: mix, Sites: sites, Blocks: h})
 								}
 							}
 						}
 					}
 				}
-				// Phase B: histories of declarations.
-				var alpha []e1.UseBlock
-				for encl := e1.UEPlain; encl < e1.UseEncl(len(e1.UseEnclNames)); encl++ {
-					for file := 0; file < 3; file++ {
-						if encl.HasBody() {
-							for _, c := range core {
-								alpha = append(alpha, e1.UseBlock{Encl: encl, File: file, Stmts: []int{c}})
-							}
-						} else {
-							alpha = append(alpha, e1.UseBlock{Encl: encl, File: file})
-						}
-					}
-				}
-				if fam == "PKGO" && !thorough && (!(mix.Allow == 1 || mix.Allow == 5) || mix.TestOnly || !(pk.Path == e1.UPkgU.Path || pk.Path == e1.UPkgW.Path)) {
-					continue // quick tier: histories under two representative allow-lists in two using packages
-				}
-				var rec func(h []e1.UseBlock)
-				rec = func(h []e1.UseBlock) {
-					if len(h) >= 2 {
-						do(&e1.UseSpec{Pkg: pk, Mix: mix, Sites: sites, Blocks: h})
-					}
-					if len(h) == depthB {
-						return
-					}
-					for _, b := range alpha {
-						if len(h) >= 2 && depthB == 3 {
-							// third declaration: bound deviations — regular files only, core statement 0..2 or declaration-level
-							if b.File == 2 || (b.Encl.HasBody() && b.Encl != e1.UEPlain) {
-								continue
-							}
-						}
-						nh := append(append([]e1.UseBlock(nil), h...), b)
-						if !e1.ValidUseHistory(nh) {
-							continue
-						}
-						rec(nh)
-					}
-				}
-				rec(nil)
 			}
 		}
 	})
